@@ -31,6 +31,7 @@ func Avg[N Number](forTime time.Time, stream stream.Stream[TsRecord[N]]) lazy.La
 			var count uint64
 			err := stream.Consume(ctx, func(currVal TsRecord[N]) {
 				avg = avg*N(count)/N(count+1) + currVal.Value/N(count+1)
+				count++
 			})
 			if err != nil {
 				return util.DefaultValue[N](), err
